@@ -38,12 +38,15 @@ func (b baseSpec) String() string {
 	return fmt.Sprintf("base%d[ps=%d av=%d %s]", b.Idx, b.PageSize, b.AutoVacuum, kindNames[b.Kind])
 }
 
-func makeBaseSpec(seed int64, i int) baseSpec {
+// makeBaseSpec: kinds rotate with the base index, page sizes rotate with the
+// base index shifted by the run seed, so that 8 consecutive bases cover all 8
+// page sizes and other seeds pair the sizes with other workload kinds.
+func makeBaseSpec(runSeed, seed int64, i int) baseSpec {
 	kind := i % len(kindNames)
 	bs := baseSpec{
 		Idx:      i,
 		Seed:     seed,
-		PageSize: pageSizes[(i+int(uint64(seed)%8))%len(pageSizes)],
+		PageSize: pageSizes[(i+int(uint64(runSeed)%8))%len(pageSizes)],
 		Kind:     kind,
 	}
 	switch kind {
@@ -234,6 +237,7 @@ func harvest(dir string, bs baseSpec) (*baseData, error) {
 		step(func() error { return bigRows(sc(11 + rng.Intn(4))) })
 		step(func() error { return commitOps(3) })
 		step(func() error { return ckpt("FULL") })
+		step(func() error { return bigRows(3) }) // pages that exist only in this WAL generation and are vacuumed away below
 		step(func() error { return run(`DELETE FROM t WHERE id > 4`) })
 		step(func() error { return run(`PRAGMA incremental_vacuum(3)`) })
 		step(func() error { return bigRows(1) })
@@ -246,7 +250,7 @@ func harvest(dir string, bs baseSpec) (*baseData, error) {
 		step(func() error { return ckpt("FULL") })
 		step(func() error { return commitOps(sc(6 + rng.Intn(2))) })
 		step(func() error { return ckpt("RESTART") })
-		step(func() error { return commitOps(2) })
+		step(func() error { return commitOps(sc(4)) })
 		step(func() error { return spill("commit") })
 		step(func() error { return run(`UPDATE ledger SET k=k+1`) })
 	case 5:
